@@ -191,8 +191,58 @@ func genC11(c *Ctx) {
 	fmt.Fprintf(&b, "/-- cleanupSnapshots -/\ndef cleanupSnapshotsExprs : List String := %s\n", leanStrs(snapExprs))
 	fmt.Fprintf(&b, "/-- cleanupSegments: control skeleton in source order -/\ndef cleanupSegmentsSkeleton : List String := %s\n", leanStrs(order))
 	fmt.Fprintf(&b, "/-- Cleanup: snapshots first, then segments -/\ndef cleanupOrder : List String := %s\n", leanStrs(cleanupOrder))
+	// ---- close(): Unlock is reached on every path: no `return` between asyncTasks.Wait() and directory.Unlock()
+	closeReturnsBeforeUnlock := 0
+	{
+		var waitPos, unlockPos token.Pos
+		for _, x := range callsIn(cl.Body) {
+			if inFuncLit(cl.Body, x.pos) {
+				continue
+			}
+			if strings.HasSuffix(x.name, ".asyncTasks.Wait") && waitPos == 0 {
+				waitPos = x.pos
+			}
+			if strings.HasSuffix(x.name, ".directory.Unlock") {
+				unlockPos = x.pos
+			}
+		}
+		if waitPos == 0 || unlockPos == 0 {
+			closeReturnsBeforeUnlock = 99 // no Wait or no Unlock at all
+		} else {
+			ast.Inspect(cl.Body, func(m ast.Node) bool {
+				if _, ok := m.(*ast.FuncLit); ok {
+					return false
+				}
+				if r, ok := m.(*ast.ReturnStmt); ok && r.Pos() > waitPos && r.Pos() < unlockPos {
+					closeReturnsBeforeUnlock++
+				}
+				return true
+			})
+		}
+	}
+	// ---- mergeSegmentBases: the reference obtained from loadSegment is given back on both paths that do not keep it
+	var memMergeReleases []string
+	if mb := idx.Func("Writer.mergeSegmentBases"); mb != nil {
+		for _, x := range callsIn(mb.Body) {
+			if x.name == "seg.Close" || x.name == "seg.DecRef" {
+				where := "closed-writer"
+				// the release on the skipped path lies after the receive from notifyCh
+				ast.Inspect(mb.Body, func(m ast.Node) bool {
+					if u, ok := m.(*ast.UnaryExpr); ok && u.Op == token.ARROW && strings.HasSuffix(selName(u.X), ".notifyCh") && u.Pos() < x.pos {
+						where = "after-introduction"
+					}
+					return true
+				})
+				memMergeReleases = append(memMergeReleases, where)
+			}
+		}
+	} else {
+		c.Refuse("index: mergeSegmentBases not found")
+	}
 	ncm, cmErr := loadSnapshotsCommitFacts(c, idx)
 	fmt.Fprintf(&b, "/-- loadSnapshots: number of deletionPolicy.Commit calls, and whether one of them lies in an error branch -/\ndef loadCommitCalls : Nat := %d\ndef loadCommitOnErr : Bool := %s\n", ncm, leanBool(cmErr))
+	fmt.Fprintf(&b, "/-- Writer.close: number of return statements between asyncTasks.Wait() and directory.Unlock() -/\ndef closeReturnsBeforeUnlock : Nat := %d\n", closeReturnsBeforeUnlock)
+	fmt.Fprintf(&b, "/-- mergeSegmentBases: where the reference from loadSegment(newSegmentID) is released (seg.Close / seg.DecRef) -/\ndef memMergeReleases : List String := %s\n", leanStrs(memMergeReleases))
 	b.WriteString("\nend BlugeGen.C11\n")
 	c.WriteLean("C11", b.String())
 	c.Summary["facts"] = 10
